@@ -412,17 +412,12 @@ theorem live_image {m : Map Val} (hwf : WF 3 m) {i d : Nat} (hi : i < 3) (hd : d
 theorem free_β {m : Map Val} {d : Nat} (h : m.isFree 3 d = true) (i : Nat) (hi : i < 3) : m.β i d = 0 :=
   (isFree_iff m 3 d).1 h i hi
 
-/-- **C14 (a)**: a successful `insert_vertices_on_edge` keeps a well-formed 2-map well formed — every edge shape,
-    every `k`, every position list (full strength since /repo e966dbe; before, the statement was false on two-dart
-    edges whose base dart is 1-free: finding D8).
-    User-side hypotheses: the edge dart is a live dart, the spare darts are not removed darts and (on a two-dart
-    edge, where all of them are used) pairwise distinct.  Everything else — counts, freeness, non-nullness, bounds,
-    defined end points — is checked by the code itself. -/
-theorem C14_insertVertices_preserves_WF (m m' : Map Val) (e : Nat) (nds : List Nat) (ts : List Rat)
+/-- the same, with the dart count and the removal flags -/
+theorem insertVertices_inv (m m' : Map Val) (e : Nat) (nds : List Nat) (ts : List Rat)
     (hwf : WF 3 m) (he : C01.InUse m e)
     (hlive : ∀ d ∈ nds, m.unused d = false)
     (hnodup : m.β 2 e ≠ 0 → nds.Nodup)
-    (h : run (insertVerticesOnEdge m.n e nds ts) m = (.ok (), m')) : WF 3 m' := by
+    (h : run (insertVerticesOnEdge m.n e nds ts) m = (.ok (), m')) : Inv m.n m.u m' := by
   obtain ⟨hc, hfree, hok, hfh0, hsh0, _, hend, vid1, vid2, v1, v2, _, _, _, _, hbody⟩ := insertVertices_ok_elim h
   have hL : ∀ d ∈ nds, d ≠ 0 → Live m.n m.u d :=
     fun d hd h0 => ⟨h0, ((hwf.toSized.okβ 0 d).1 (hfree d hd).1).2, hlive d hd⟩
@@ -430,7 +425,7 @@ theorem C14_insertVertices_preserves_WF (m m' : Map Val) (e : Nat) (nds : List N
     fun d hd => hL d (List.mem_of_mem_take hd) (hfh0 d hd)
   have key := keeps_insertVerticesBody (n := m.n) (u := m.u) m.n v1 v2 e (m.β 2 e) (m.β 1 e)
     (nds.take ts.length) (nds.drop ts.length) ts he (fun hb1 => live_image hwf (by omega) he.2.1 hb1) hfhL ?_
-  · exact (key m m' () (Inv.of_wf hwf) hbody).wf
+  · exact key m m' () (Inv.of_wf hwf) hbody
   · intro h2
     have hinv := hwf.invol 2 (by omega) (by omega) e he.2.1 h2
     have hb2L := live_image hwf (by omega : 2 < 3) he.2.1 h2
@@ -448,6 +443,19 @@ theorem C14_insertVertices_preserves_WF (m m' : Map Val) (e : Nat) (nds : List N
       have := free_β (hfree x (List.mem_of_mem_drop hx)).2 2 (by omega)
       rw [heq] at this
       exact h2 this
+
+/-- **C14 (a)**: a successful `insert_vertices_on_edge` keeps a well-formed 2-map well formed — every edge shape,
+    every `k`, every position list (full strength since /repo e966dbe; before, the statement was false on two-dart
+    edges whose base dart is 1-free: finding D8).
+    User-side hypotheses: the edge dart is a live dart, the spare darts are not removed darts and (on a two-dart
+    edge, where all of them are used) pairwise distinct.  Everything else — counts, freeness, non-nullness, bounds,
+    defined end points — is checked by the code itself. -/
+theorem C14_insertVertices_preserves_WF (m m' : Map Val) (e : Nat) (nds : List Nat) (ts : List Rat)
+    (hwf : WF 3 m) (he : C01.InUse m e)
+    (hlive : ∀ d ∈ nds, m.unused d = false)
+    (hnodup : m.β 2 e ≠ 0 → nds.Nodup)
+    (h : run (insertVerticesOnEdge m.n e nds ts) m = (.ok (), m')) : WF 3 m' :=
+  (insertVertices_inv m m' e nds ts hwf he hlive hnodup h).wf
 
 /-- everything a successful `insert_vertex_on_edge` has checked and read before its first write -/
 theorem insertVertex_ok_elim {n : Nat} {m m' : Map Val} {e nd1 nd2 : Nat} {t : Option Rat}
